@@ -264,15 +264,13 @@ func encodeJsonLines(ctx context.Context, fp io.Writer, view *View, options opti
 		return err
 	}
 
+	// Every record is one line: PRETTY_PRINT, which spreads an object over several lines (and, with
+	// it, the colours of the palette), does not apply to JSON Lines.
 	e := txjson.NewEncoder()
 	e.EscapeType = options.JsonEscape
 	e.LineBreak = options.LineBreak
-	e.PrettyPrint = options.PrettyPrint
+	e.PrettyPrint = false
 	e.FloatFormat = jsonFloatFormat(options.ScientificNotation)
-	if options.PrettyPrint && options.Color {
-		e.Palette = palette
-		defer palette.Enable()
-	}
 
 	lineBreak := e.LineBreak.Value()
 	w := bufio.NewWriter(fp)
